@@ -207,6 +207,10 @@ class Ctx:
                                timeout=timeout, env=e, errors="replace")
         except subprocess.TimeoutExpired:
             raise Broken("driver timeout: %s %s" % (suite, args))
+        if p.returncode == 4 and "HANG case=" in p.stdout:
+            # the watchdog recorded a case that did not return; the partial file is judged
+            self.note("driver %s: %s" % (suite, p.stdout.strip().splitlines()[-1]))
+            return p.stdout
         if p.returncode != 0:
             raise Broken("driver %s failed rc=%d:\n%s" % (suite, p.returncode, p.stdout[-4000:]))
         return p.stdout
